@@ -210,6 +210,8 @@ type world struct {
 	idAtSeal            int
 	sealBuiltSeen       bool
 	faultNext           bool
+	failedW             int   // appends whose write failed (their indexWg.Add is given back only by repaired code)
+	leak                *bool // does the real WaitGroup keep those counts? (asked once, when nothing else is in flight)
 	notes               []string
 }
 
@@ -398,7 +400,7 @@ func (w *world) enabled(t *thread) bool {
 	case "seal":
 		switch t.at {
 		case "c07.pf.seal.begin":
-			return w.wg == 0
+			return w.wgDrained()
 		case "c07.pf.seal.wgdone":
 			return w.aReaders == 0
 		}
@@ -422,6 +424,21 @@ func (w *world) enabled(t *thread) bool {
 		return true
 	}
 	return true
+}
+
+// wgDrained: would indexWg.Wait() return?  The counts of failed writes are only known to the implementation.
+func (w *world) wgDrained() bool {
+	if w.wg-w.failedW != 0 {
+		return false
+	}
+	if w.failedW == 0 {
+		return true
+	}
+	if w.leak == nil {
+		l := !returnsWithin(w.p.WaitWriteIdle, 1)
+		w.leak = &l
+	}
+	return !*w.leak
 }
 
 // next action of the suicider that holds (gotA, gotS) in t.args[0..1]
@@ -511,6 +528,7 @@ func (w *world) stepApp(t *thread) error {
 	w.pendW--
 	if t.val.(string) != "" {
 		w.pf = append(w.pf, "ae")
+		w.failedW++
 		return nil
 	}
 	if got := int64(disk.DocBlock(b.metaB).GetExt2()); got != b.pos {
@@ -530,10 +548,6 @@ func (w *world) stepApp(t *thread) error {
 
 func (w *world) stepIdx(t *thread) error {
 	b := w.bulks[t.idx]
-	if t.at == "c07.aidx.done" {
-		w.s.release(t)
-		return nil
-	}
 	ev, err := w.s.resume(t)
 	if err != nil {
 		return err
@@ -560,6 +574,7 @@ func (w *world) stepIdx(t *thread) error {
 		w.wg--
 		w.inflight--
 		b.indexed = true
+		w.s.release(t) // the worker goes back to its task channel; nothing of this bulk is left to do
 	default:
 		return fmt.Errorf("index worker stopped at %q", ev.name)
 	}
